@@ -256,6 +256,12 @@ def _is_ok(v):
 
 
 QUERY_SCENARIOS = ("join", "join_names", "select_names")
+KEY_SCENARIOS = ("keys",)
+
+
+def _confirm_keys(model, native):
+    """Native replay for the key-invariant laws (C05)."""
+    return _confirm(model, native, only=KEY_SCENARIOS)
 
 
 def _confirm_query(model, native):
@@ -268,7 +274,7 @@ def _confirm(model, native, only=None):
     out = native("native::protocol::replay_protocol", {})
     if not out.get("_ran"):
         return None, "native protocol scenarios did not run"
-    out = {k: v for k, v in out.items() if k.startswith("_") or ((k in only) if only else (k not in QUERY_SCENARIOS))}
+    out = {k: v for k, v in out.items() if k.startswith("_") or ((k in only) if only else (k not in QUERY_SCENARIOS + KEY_SCENARIOS))}
     failed = {k: v for k, v in out.items() if isinstance(v, str) and v.startswith("FAILED")}
     if out.get("_panicked") and not only:
         return True, "a native protocol scenario panicked: %s" % out.get("_panic_msg")
